@@ -377,6 +377,24 @@ func matchNames(pkg *types.Package) *NameMap {
 				}
 			}
 		}
+		// one field left over on each side: the same field with a new name and a new type (a bool that became a small enum)
+		var restM []BaselineField
+		for _, mf := range missF {
+			if _, ok := nm.FieldCur[bn+"."+mf.Name]; !ok {
+				restM = append(restM, mf)
+			}
+		}
+		var restF []BaselineField
+		for k, ff := range freshF {
+			if !used[k] {
+				restF = append(restF, ff)
+			}
+		}
+		if len(restM) == 1 && len(restF) == 1 {
+			nm.FieldCanon[ct.Name+"."+restF[0].Name] = bn + "." + restM[0].Name
+			nm.FieldCur[bn+"."+restM[0].Name] = ct.Name + "." + restF[0].Name
+			nm.Renames = append(nm.Renames, "field "+bn+"."+restM[0].Name+" -> "+ct.Name+"."+restF[0].Name+" (type changed)")
+		}
 		// fields that kept their name but whose owner was renamed
 		if ct.Name != bn {
 			for _, f := range ct.Fields {
@@ -559,6 +577,33 @@ func matchFuncs(p *Prog) {
 		nm.FuncCanon[fd.Name], nm.FuncCur[md.Name] = md.Name, fd.Name
 		nm.Renames = append(nm.Renames, "func "+md.Name+" -> "+fd.Name)
 	}
+	// second pass: a function moved to another receiver (or between function and method) keeping its name and body
+	short := func(n string) string {
+		if i := strings.LastIndex(n, "."); i >= 0 {
+			return n[i+1:]
+		}
+		return n
+	}
+	for mi, md := range missD {
+		if usedM[mi] {
+			continue
+		}
+		best, bestSim := -1, 0.0
+		for fi, fd := range freshD {
+			if usedF[fi] || short(fd.Name) != short(md.Name) {
+				continue
+			}
+			if sim := jaccard(md.FP, fd.FP); sim > bestSim {
+				best, bestSim = fi, sim
+			}
+		}
+		if best >= 0 && bestSim >= 0.6 {
+			usedM[mi], usedF[best] = true, true
+			fd := freshD[best]
+			nm.FuncCanon[fd.Name], nm.FuncCur[md.Name] = md.Name, fd.Name
+			nm.Renames = append(nm.Renames, "func "+md.Name+" -> "+fd.Name+" (moved)")
+		}
+	}
 	sort.Strings(nm.Renames)
 }
 
@@ -587,4 +632,22 @@ func jaccard(a, b []string) float64 {
 		return 1
 	}
 	return float64(inter) / float64(union)
+}
+
+var baselineFields map[string]bool
+
+// InBaselineField: "Type.field" (canonical spelling) is an unexported field of the pinned tree.
+func InBaselineField(key string) bool {
+	if baselineFields == nil {
+		baselineFields = map[string]bool{}
+		var base Baseline
+		if json.Unmarshal(baselineJSON, &base) == nil {
+			for _, t := range base.Types {
+				for _, f := range t.Fields {
+					baselineFields[t.Name+"."+f.Name] = true
+				}
+			}
+		}
+	}
+	return baselineFields[key]
 }
